@@ -25,7 +25,7 @@ RULE = (
     "ECC, matching, wrong private key, wrong AES key, wrong security code, all}, Bf3File.bf2_import (both modes, stream/path), ConfigId.create_from_str, pfid2_filter_to_str. Texts: "
     "ALL single-character replacements/deletions (over a 7-character alphabet) and ALL prefixes of valid files per format, multi-mutations, line swaps/duplications, token "
     "insertions, grammar-generated near-valid files with MACs recomputed (deep paths), random text/hex. Oracle: returns, or raises FormatError/ValueError subclasses; "
-    "step count within a budget linear in the input size and user-CPU time of the single call below 20 s + 2 ms/char (for loops inside C code such as regular expressions); global state unchanged. distinct = digest of (entry, config, text); non-trivial = text differs from the valid file"
+    "work on inputs of one shape and sizes N, 2N, 4N (BF2 with thousands of non-contiguous lines, BF3 with many components / comment lines / a long payload, BEC2 with many blocks, long identifier names) grows about linearly (ratio 4N/N of logical steps <= 9); step count within a budget linear in the input size and user-CPU time of the single call below 20 s + 2 ms/char (for loops inside C code such as regular expressions); global state unchanged. distinct = digest of (entry, config, text); non-trivial = text differs from the valid file"
 )
 ASSUMPTIONS = [
     "'never hangs' is decided as: function entries + jumps counted by sys.monitoring stay below 3,000,000 + 30,000 x len(text) (more than 50x the largest count seen on valid inputs of that size)",
@@ -37,6 +37,7 @@ TIMEOUT = {"quick": 1200, "thorough": 8 * 3600}
 NSH = 16
 ALPHABET = ["0", "F", ":", "\n", " ", "x", "é"]
 BUDGET_A, BUDGET_B = 3_000_000, 30_000
+MAX_EXTRA = ("largest_growth_ratio_steps_4N_over_N_x100",)
 CPU_BUDGET_S, CPU_BUDGET_PER_CHAR = 20.0, 0.002
 
 
@@ -49,6 +50,8 @@ def plan(tier, seed):
         jobs.append({"name": "deep%02d" % i, "spec": {"kind": "deep", "n": 60 if q else 8000, "i": i}})
     for i in range(4 if q else NSH):
         jobs.append({"name": "rand%02d" % i, "spec": {"kind": "random", "n": 2500 if q else 250000}})
+    for i, shape in enumerate(GROWTH_SHAPES):
+        jobs.append({"name": "growth_" + shape, "spec": {"kind": "growth", "shape": shape, "scale": 1 if q else 3}})
     return jobs
 
 
@@ -56,7 +59,7 @@ def mandatory_bins(tier):
     b = ["entry:bf3_stream", "entry:bf3_path", "entry:bf3_nomac", "entry:bec2_none", "entry:bec2_public_only_ecc", "entry:bec2_matching", "entry:bec2_wrong_private", "entry:bec2_wrong_aes_key",
          "entry:bec2_wrong_code", "entry:bec2_all", "entry:bf2_enforce", "entry:bf2_no_enforce", "entry:bf2_path", "entry:bec2_path_nomac", "entry:configid", "entry:pfid2", "all_prefixes", "all_single_char_mutations",
          "line_swap", "line_duplicate", "token_insert", "multi_mutation", "random_text", "random_hex", "global_state_compared", "reference_inputs_rechecked", "returned_normally", "raised_format_error", "raised_value_error"]
-    b += ["deep:" + d for d in DEEP]
+    b += ["deep:" + d for d in DEEP] + ["growth:" + g for g in GROWTH_SHAPES]
     return b
 
 
@@ -481,7 +484,7 @@ def deep_cases(ns, rng, name):
         cases = [b"", b"\x01", b"\x01\x00", b"\x01\x01", b"\x01\x01\x00", b"\x01\x01\x00\x9b", b"\x01\x02\x80\x9b\x40\x9c", b"\x01\x01\x80\x9b", b"\x02\x01\x00\x9b", b"\x01\xff" + bytes(510)] + [rng.randbytes(rng.randrange(0, 12)) for _ in range(40)] + [bytes((1, k)) + rng.randbytes(2 * k) for k in range(0, 6) for _ in range(5)]
         return [("pfid2", c) for c in cases], extra
     if name == "configid_direct":
-        base = ["12345-0001-0002-03 name", "name (version 07)", "", "12345-0001-0002-03", "x", "(version 07)", " (version 07)", "12345-0001-0002-0", "１２３４５-0001-0002-03", "12345-0001-0002-03\n", "a\n (version 07)", "\x00", "9" * 5000]
+        base = ["12345-0001-0002-03 name", "name (version 07)", "{}", "{0}", "Door {A} (version 7)", "cfg {baltech.x} (v1)", "{generic[99]}", "%s %d %(x)s", "12345-0001-0002-03 {name}", "{", "}", "", "12345-0001-0002-03", "x", "(version 07)", " (version 07)", "12345-0001-0002-0", "１２３４５-0001-0002-03", "12345-0001-0002-03\n", "a\n (version 07)", "\x00", "9" * 5000]
         # long unbroken / repetitive names followed by something that stops the name short of the end of the text: inputs
         # on which an ambiguous pattern backtracks super-linearly
         for run in (24, 32, 48, 64, 200):
@@ -494,7 +497,7 @@ def deep_cases(ns, rng, name):
             s = list(rng.choice(base[:2]))
             for _k in range(rng.randrange(1, 4)):
                 if s:
-                    s[rng.randrange(len(s))] = rng.choice("0-9( )v\n١x")
+                    s[rng.randrange(len(s))] = rng.choice("0-9( )v\n١x{}%")
             base.append("".join(s))
         return [("configid", c) for c in base], extra
     raise ValueError(name)
@@ -536,6 +539,87 @@ def run_deep(ns, ctx, spec):
         ctx.sample({"kind": "deep", "classes": DEEP[:6]})
     finally:
         mon.close()
+
+
+GROWTH_SHAPES = ["bf2_blob_lines_all_non_contiguous", "bf2_memory_image_lines_all_non_contiguous", "bf3_many_components", "bf3_many_comment_lines", "bf3_one_long_payload", "bec2_many_unknown_blocks", "configid_long_name"]
+
+
+def growth_input(ns, rng, shape, n):
+    """an input of 'size' n of the given shape -> (entry name, callable, text)"""
+    BF, B = ns.bf3file, ns.bec2file
+    if shape.startswith("bf2_"):
+        base = 0x35 if "blob" in shape else 0x84
+        lines = ["##Firmware: 1100 ID-engine 1.02.03", "##Bf3Update: 1", "#>CHECK_FWVER VERSIONDESC=*", "#>SELECT FILTER=01 01 00 9B", "#>SELECT_IF PROTOCOL=*", ":0000FE00"]
+        for i in range(n):
+            adr = i * 0x20
+            lines.append(R2.data_line(i, base + (adr >> 16), adr & 0xFFFF, bytes((i & 0xFF,)) * 8)[0])
+        lines.append(":0000FF00")
+        text = "\n".join(lines) + "\n"
+        return "bf2_enforce", (lambda: BF.Bf3File.bf2_import(io.StringIO(text))), text
+    key = bytes(range(16))
+    if shape == "bf3_many_components":
+        comps = [MComp([(1, bytes((j & 0xFF, j >> 8)))], bytes((1 + j % 250,)) * 3, None, False) for j in range(n)]
+        text = L.text_of([("a", "b")], L.serialise_bf3(comps, key))
+    elif shape == "bf3_many_comment_lines":
+        comps = [MComp([(1, b"x")], b"payload", None, False)]
+        text = L.text_of([("Key%d" % j, "value %d" % j) for j in range(n)], L.serialise_bf3(comps, key))
+    elif shape == "bf3_one_long_payload":
+        comps = [MComp([(1, b"x")], rng.randbytes(40 * n), None, False)]
+        text = L.text_of([], L.serialise_bf3(comps, key))
+    elif shape == "bec2_many_unknown_blocks":
+        comps = [MComp([(1, b"x")], b"payload", None, False)]
+        ck = bytes(16)
+        blocks = [(0x40 + j % 0x80, bytes((j & 0xFF,)) * 20) for j in range(n)] + [(1, container.wrap(ck, bytes(10) + key))]
+        text = L.text_of([], L.serialise_bec2(comps, key, blocks))
+        return "bec2_matching", (lambda: B.Bec2File.read_file(io.StringIO(text), [B.SoftwareCustKeyEncryptor(ck)], True)), text
+    elif shape == "configid_long_name":
+        text = "12345-0001-0002-03 " + "long name " * n
+        return "configid", (lambda: ns.configid.ConfigId.create_from_str(text)), text
+    else:
+        raise ValueError(shape)
+    return "bf3_stream", (lambda: BF.Bf3File.read_file(io.StringIO(text), True, key)), text
+
+
+def run_growth(ns, ctx, spec):
+    """'never hangs' for LARGE inputs: the logical work of a parser on inputs of one shape and sizes N, 2N, 4N must grow about
+    linearly (x4); a quadratic algorithm shows x16.  Self-calibrating: no absolute budget, no wall clock."""
+    rng = ctx.rng
+    shape = spec["shape"]
+    base_n = {"bf2_blob_lines_all_non_contiguous": 1500, "bf2_memory_image_lines_all_non_contiguous": 1500, "bf3_many_components": 400, "bf3_many_comment_lines": 2000, "bf3_one_long_payload": 400,
+              "bec2_many_unknown_blocks": 300, "configid_long_name": 2000}[shape] * spec["scale"]
+    budget = StepBudget()
+    steps = []
+    try:
+        for mult in (1, 2, 4):
+            entry, fn, text = growth_input(ns, rng, shape, base_n * mult)
+            ctx.ev()
+            ctx.bin("entry:" + entry)
+            ctx.bin("growth:" + shape)
+            ctx.distinct("growth", shape, mult, len(text))
+            outcome = "returned"
+            signal.signal(signal.SIGVTALRM, _on_vtalrm)
+            signal.setitimer(signal.ITIMER_VIRTUAL, 600)
+            try:
+                budget.run(fn, 10**12, len(text))
+            except CpuBudgetExceeded:
+                ctx.violation("cpu_time_budget_exceeded:" + entry, {"shape": shape, "size": base_n * mult, "len": len(text), "budget_s": 600}, {"kind": "growth", "shape": shape})
+                return
+            except Exception as e:
+                outcome = type(e).__name__
+                if not isinstance(e, (ns.error.FormatError, ValueError)):
+                    f, fu = raising_site(e)
+                    ctx.violation("unrelated_exception:%s:%s:%s:%s" % (entry.split("_")[0], type(e).__name__, f, fu), {"entry": entry, "shape": shape, "len": len(text)}, {"kind": "growth", "shape": shape})
+            finally:
+                signal.setitimer(signal.ITIMER_VIRTUAL, 0)
+            ctx.mon("step_budget_run")
+            steps.append((base_n * mult, len(text), budget.steps, outcome))
+        ratio = steps[2][2] / max(1, steps[0][2])
+        ctx.max_extra("largest_growth_ratio_steps_4N_over_N_x100", int(ratio * 100))
+        ctx.sample({"kind": "growth", "shape": shape, "sizes_lens_steps": steps, "ratio_4N_over_N": round(ratio, 2)})
+        if ratio > 9 and steps[2][2] > 200000:
+            ctx.violation("super_linear_work_growth:" + shape, {"sizes_lens_steps": steps, "ratio_4N_over_N": round(ratio, 2)}, {"kind": "growth", "shape": shape})
+    finally:
+        budget.close()
 
 
 def run_random(ns, ctx, spec):
@@ -595,6 +679,8 @@ def run_shard(spec, ctx):
         run_mutate(ns, ctx, spec)
     elif k == "deep":
         run_deep(ns, ctx, spec)
+    elif k == "growth":
+        run_growth(ns, ctx, spec)
     else:
         run_random(ns, ctx, spec)
 
@@ -602,7 +688,9 @@ def run_shard(spec, ctx):
 def replay(rec, ctx):
     ns = load()
     k = rec.get("kind")
-    if k == "deep":
+    if k == "growth":
+        run_growth(ns, ctx, {"shape": rec["shape"], "scale": 1})
+    elif k == "deep":
         run_deep(ns, ctx, {"n": len(DEEP), "i": 0})
     elif k == "random":
         run_random(ns, ctx, {"n": 600})
